@@ -119,11 +119,27 @@ def run(repo: Repo) -> Result:
             res.add("C13-INTERRUPT", q, "break", "TablerowNode must honour BreakLoop through its interrupts flag", f.file, f.line)
         if "if _break:" not in t or "_break = True" not in t:
             res.add("C13-INTERRUPT", q, "break-flag", "TablerowNode must leave the row loop after a break (closing the cell first)", f.file, f.line)
+    import copy as _copy
+
+    from ..guards import canon, exits
+    from ..normalize import propagate_aliases
+
     for q in ROOTS:
         f = repo.func(q)
         res.ob(f"root:{q}")
-        h = next((x for x in ast.walk(f.node) if isinstance(x, ast.ExceptHandler) and handler_types(x) == ["LiquidInterrupt"]), None)
-        if h is None or "if not partial or block_scope:" not in text(h) or not any(isinstance(n, ast.Raise) and n.exc is None for n in ast.walk(h)):
+        fnode = propagate_aliases(_copy.deepcopy(f.node))  # a hoisted flag / `error = self.env.error` alias
+        h = next((x for x in ast.walk(fnode) if isinstance(x, ast.ExceptHandler) and handler_types(x) == ["LiquidInterrupt"]), None)
+        ok = False
+        if h is not None:
+            ex = exits(ast.Module(body=h.body, type_ignores=[]), resolve_locals=False)
+            reraises = [e for e in ex if e.kind == "raise" and (e.node.exc is None or (h.name and is_name(e.node.exc, h.name)))]
+            others = [e for e in ex if e not in reraises]
+            # re-raised exactly when the template is a partial that is not a block scope
+            cond_ok = len(reraises) == 1 and set(reraises[0].canon) == {"partial", "not block_scope"}
+            # every other way out of the handler reports a LiquidSyntaxError to env.error
+            routed = [c for c in calls(ast.Module(body=h.body, type_ignores=[])) if callee_name(c) == "error" and c.args and isinstance(c.args[0], ast.Call) and callee_name(c.args[0]) == "LiquidSyntaxError"]
+            ok = cond_ok and len(routed) >= 1 and all(e.kind == "end" for e in others)
+        if not ok:
             res.add("C13-INTERRUPT", q, "root-handler", f"{q}: an interrupt at a template root must become a syntax error unless the template is an include inside a loop (then re-raise)", f.file, f.line)
 
     # ---- C13-BOUNDS / C13-NONE / C13-SHAPE -------------------------------------------
@@ -242,7 +258,18 @@ def run(repo: Repo) -> Result:
         )
         if not ok:
             res.add("C13-SHAPE", q, "else-iff-empty", "ForNode must render the loop when the sliced length is non-zero and its else block otherwise", f.file, f.line)
-        if "ForLoop(name=f'{name}-{self.expression.iterable}', it=it, length=length, parentloop=context.parentloop())" not in text(f.node):
+        # the ForLoop helper (possibly built in an extracted private method: helpers are inlined)
+        # receives the sliced iterator and its length — the pair returned by expression.evaluate*
+        from ..normalize import normalize
+
+        nnode = normalize(repo, f, aliases=False)
+        fl = [c for c in ast.walk(nnode) if isinstance(c, ast.Call) and callee_name(c) == "ForLoop"]
+        pair = text(body[0].targets[0]).strip("()").split(", ") if body and isinstance(body[0], ast.Assign) else []
+        okf = False
+        if len(fl) == 1 and len(pair) == 2:
+            kw = {k.arg: text(k.value) for k in fl[0].keywords}
+            okf = kw.get("it") == pair[0] and kw.get("length") == pair[1] and kw.get("parentloop") == "context.parentloop()" and "self.expression.iterable" in kw.get("name", "")
+        if not okf:
             res.add("C13-SHAPE", q, "forloop", "the forloop helper must be built from the sliced iterator and its length", f.file, f.line)
 
     # ---- C13-HELPERS ----------------------------------------------------------------------
